@@ -457,6 +457,26 @@ static void space2 (long start)
       limits_case (p, sig, start);
     }
   }
+  /* text that ends up in the listing: program and variable names around the sizes of the formatting buffers (every
+   * back end prints the program name; the C back ends print variable names) */
+  {
+    static const int nlen[] = { 1, 100, 180, 189, 190, 198, 199, 200, 201, 255, 256, 300, 1000, 5000, 70000 };
+    int which;
+    for (n = 0; n < 15; n++) for (which = 0; which < 2; which++) {
+      OrcProgram *p = orc_program_new ();
+      char *nmx = malloc (nlen[n] + 1);
+      int i;
+      for (i = 0; i < nlen[n]; i++) nmx[i] = (char) ('a' + i % 26);
+      nmx[nlen[n]] = 0;
+      orc_program_set_name (p, which == 0 ? nmx : "xc2n");
+      orc_program_add_destination (p, 2, "d1");
+      orc_program_add_source (p, 2, which == 1 ? nmx : "s1");
+      orc_program_append_ds_str (p, "copyw", "d1", which == 1 ? nmx : "s1");
+      snprintf (sig, sizeof (sig), "%s-name-length=%d", which ? "variable" : "program", nlen[n]);
+      limits_case (p, sig, start);
+      free (nmx);
+    }
+  }
 }
 
 /* ------------------------------------------------------------ space 3 */
